@@ -175,6 +175,8 @@ class Store:
         self.trace = []            # callback names in invocation order (per request; reset by caller)
         self.fail_at = None        # index of the callback invocation that raises Fault
         self.users = {1: User(1), 2: User(2)}
+        self.jwt = {"key": "id-token-secret", "alg": "HS256", "iss": "https://as.example", "exp": 3600}
+        self.used_nonces = set()   # (client_id, nonce) pairs the integrator recorded for front-channel ID tokens
 
     def cb(self, name):
         i = len(self.trace)
@@ -294,10 +296,11 @@ class OpenIDCodeExt(oidc_grants.OpenIDCode):
 
     def exists_nonce(self, nonce, request):
         self.store.cb("exists_nonce")
-        return any(c.nonce == nonce and c.client_id == request.client_id for c in self.store.codes)
+        return any(c.nonce == nonce and c.client_id == request.client_id for c in self.store.codes) or \
+            (request.client_id, nonce) in self.store.used_nonces
 
     def get_jwt_config(self, grant):
-        return {"key": "id-token-secret", "alg": "HS256", "iss": "https://as.example", "exp": 3600}
+        return dict(self.store.jwt)
 
     def generate_user_info(self, user, scope):
         return UserInfo(sub=str(user.get_user_id()))
@@ -310,10 +313,11 @@ class ImplicitGrant(grants.ImplicitGrant):
 class OIDCImplicit(oidc_grants.OpenIDImplicitGrant):
     def exists_nonce(self, nonce, request):
         self.server.store.cb("exists_nonce")
-        return nonce in self.server.store.jtis
+        return (request.client_id, nonce) in self.server.store.used_nonces or \
+            any(c.nonce == nonce and c.client_id == request.client_id for c in self.server.store.codes)
 
     def get_jwt_config(self):
-        return {"key": "id-token-secret", "alg": "HS256", "iss": "https://as.example", "exp": 3600}
+        return dict(self.server.store.jwt)
 
     def generate_user_info(self, user, scope):
         return UserInfo(sub=str(user.get_user_id()))
@@ -328,10 +332,11 @@ class OIDCHybrid(oidc_grants.OpenIDHybridGrant):
 
     def exists_nonce(self, nonce, request):
         self.server.store.cb("exists_nonce")
-        return nonce in self.server.store.jtis
+        return (request.client_id, nonce) in self.server.store.used_nonces or \
+            any(c.nonce == nonce and c.client_id == request.client_id for c in self.server.store.codes)
 
     def get_jwt_config(self):
-        return {"key": "id-token-secret", "alg": "HS256", "iss": "https://as.example", "exp": 3600}
+        return dict(self.server.store.jwt)
 
     def generate_user_info(self, user, scope):
         return UserInfo(sub=str(user.get_user_id()))
